@@ -565,9 +565,11 @@ def check_C03(chk):
     res, st = Q.run_batch(scens, chk.wd, known=chk.known_tags(), par=12)
     chk.consume(res, st, props=("C03",))
     nontrivial_seq(chk, res)
+    alloc_design(chk)
     return chk.finish("model_checking",
                       "Inv_C03 (WellFormed and Exact from spec/Qcow2Format.tla) evaluated after every successful flush_meta of seeded histories "
-                      "over all refcount widths incl. sub-byte, several slice sizes, built and library-formatted images",
+                      "over all refcount widths incl. sub-byte, several slice sizes, built and library-formatted images; design model spec/Alloc.tla: refcounts "
+                      "after every allocation/free of its TLC-enumerated behaviours compared with the real allocator's (binding B3)",
                       BASE_ASSUME)
 
 
@@ -969,6 +971,16 @@ def alloc_design(chk):
     t0 = time.time()
     _, gen0, dist0 = Q.tlc_enumerate("MC_AllocSmall.tla", need_recs=False, workers=8, timeout=900)
     vecs, gen1, dist1 = Q.tlc_enumerate("Gen_Alloc.tla", env={"QUICK": "1" if chk.tier == "quick" else "0"}, timeout=1800)
+    bad = run_alloc_vectors(chk, vecs)
+    chk.extra.update(alloc_model_states=dist0, alloc_vectors_replayed=len(vecs), alloc_vectors_mismatched=bad,
+                     alloc_seconds=round(time.time() - t0, 1))
+    chk.nruns += len(vecs)
+    chk.accepted += len(vecs) - bad
+    chk.stats["states"] += gen0 + gen1
+    chk.stats["distinct"] += dist0 + dist1
+
+
+def run_alloc_vectors(chk, vecs):
     scens = []
     for i, v in enumerate(vecs):
         scens.append({"name": f"av-{i}", "bsb": 9,
@@ -1017,12 +1029,7 @@ def alloc_design(chk):
             if bad <= 3:
                 sc2 = dict(sc, expected=v)
                 chk.report({"scenario": sc2}, chk.prop, f"{sc['name']}: {why}", "allocvec:" + why[:60])
-    chk.extra.update(alloc_model_states=dist0, alloc_vectors_replayed=len(vecs), alloc_vectors_mismatched=bad,
-                     alloc_seconds=round(time.time() - t0, 1))
-    chk.nruns += len(vecs)
-    chk.accepted += len(vecs) - bad
-    chk.stats["states"] += gen0 + gen1
-    chk.stats["distinct"] += dist0 + dist1
+    return bad
 
 
 def check_C08(chk):
@@ -1516,6 +1523,11 @@ def main():
             shutil.rmtree(os.path.join(Q.VERIF, "replays", a.prop), ignore_errors=True)
         if a.replay:
             body = json.load(open(a.replay))
+            if "expected" in body["scenario"] and "rc_pattern" in body["scenario"]:
+                run_alloc_vectors(chk, [body["scenario"]["expected"]])
+                for l in sorted(set(chk.viol_lines)):
+                    print(l)
+                sys.exit(1 if chk.viol_lines else 0)
             res, st = Q.run_batch([body["scenario"]], chk.wd, known=chk.known_tags(), par=1,
                                   mode="crash" if a.prop in ("C04", "C05", "C12") else "")
             chk.consume(res, st, props=(a.prop,))
